@@ -616,6 +616,9 @@ def _method_to_json(f: types.MethodType) -> Dict[str, str]:
   """Converts a method to a JSON dict."""
   type_name = _type_name(f)
   if isinstance(f.__self__, type):
+    # Name the class the method is bound to: for an inherited class method
+    # `f.__qualname__` names the base class that defines it.
+    type_name = f'{_type_name(f.__self__)}.{f.__name__}'
     return {
         JSONConvertible.TYPE_NAME_KEY: 'method',
         'name': type_name
